@@ -66,6 +66,11 @@ const GRACES: &[u32] = &[0, 1, 2, 6, 42];
 
 impl Case {
     pub fn new(seed: u64, id: u64, bias: &str, dir: &PathBuf) -> Case {
+        Case::new_cfg(seed, id, bias, dir, None)
+    }
+
+    /// Like `new`, with the tower configuration (slots, duration, grace) imposed.
+    pub fn new_cfg(seed: u64, id: u64, bias: &str, dir: &PathBuf, force: Option<(u32, u32, u32)>) -> Case {
         let mut rng = Rng::stream(seed, id, 0xE1);
         let n_users = 2 + rng.usize(3);
         let n_chans = 4 + rng.usize(7);
@@ -79,6 +84,7 @@ impl Case {
             "expiry" => (*rng.pick(&[0u32, 1, 2, 3, 5, 21, 1000, 0x8000_0000, u32::MAX]), *rng.pick(&[0u32, 1, 2, 5, 20]), *rng.pick(GRACES)),
             _ => (*rng.pick(SLOTS), *rng.pick(DURATIONS), *rng.pick(GRACES)),
         };
+        let (s, d, g) = force.unwrap_or((s, d, g));
         let db_path = dir.join(format!("case-{id}.sqlite"));
         let _ = std::fs::remove_file(&db_path);
         let model = Model::new(s, d, g, &lock(&world.chain));
